@@ -149,7 +149,10 @@ def gen(rng, tier):
                    'param': rng.choice(['a', 'b']),
                    'val': {'lit': rng.randint(700, 799)}})
   return {'files': files, 'root': '/vfs/root.gin', 'initial': initial,
-          'entry': rng.choice(['file', 'file', 'string']),
+          # ('lines' = parse_config with a list of lines, 'extra_bindings' = the
+          # bindings argument of parse_config_files_and_bindings)
+          'entry': rng.choice(['file', 'file', 'file', 'string', 'string',
+                               'lines', 'extra_bindings']),
           'ambient': rng.choice(['', 'amb']), 'followup': follow,
           'final_newline': rng.random() < 0.8,
           'only': None}   # or [unit index, kind] to run a single fault point
@@ -256,6 +259,11 @@ def _parse(case, fs, texts):
   gin = world.gin
   if case['entry'] == 'string':
     return gin.parse_config(texts[case['root']])
+  if case['entry'] == 'lines':
+    return gin.parse_config(texts[case['root']].split('\n'))
+  if case['entry'] == 'extra_bindings':
+    return gin.parse_config_files_and_bindings(
+        [], texts[case['root']].split('\n'), finalize_config=False)
   return gin.parse_config_file(case['root'])
 
 
@@ -320,7 +328,7 @@ def run(case):
                    'msg': msg})
 
   units = units_of(case)
-  root_is_string = case['entry'] == 'string'
+  root_is_string = case['entry'] != 'file'
 
   # ---- world B: prefix snapshots, built incrementally -----------------------
   world.reset()
@@ -517,6 +525,7 @@ def run(case):
       plans += [('open_raises', 'eacces'), ('bytes_lines', True)]
       # the read may also be interrupted by something that is not an Exception
       plans += [('read_interrupts', i) for i in range(min(nlines + 1, 5))]
+      plans += [('read_enoent', i) for i in range(min(nlines + 1, 4))]
       for fk, arg in plans:
         world.reset()
         fs, texts = _setup(case, case['files'], {fname: {fk: arg}})
@@ -549,6 +558,10 @@ def run(case):
           if not isinstance(exc, OSError):
             v('C16.io_error_class', [fk, type(exc).__name__ if exc else 'none'],
               '%s on %s surfaced as %r' % (fk, fname, exc))
+        if fk == 'read_enoent' and not isinstance(exc, FileNotFoundError):
+          v('C16.io_error_class', [fk, type(exc).__name__ if exc else 'none'],
+            '%s on %s surfaced as %r (the reader raised FileNotFoundError)' %
+            (fk, fname, exc))
         if fk == 'read_interrupts' and not isinstance(exc, vfs.Interrupt):
           v('C16.io_error_class', [fk, type(exc).__name__ if exc else 'none'],
             '%s on %s surfaced as %r' % (fk, fname, exc))
